@@ -3515,8 +3515,9 @@ func (pid *PID) findRunningChild(tree *tree, childAddress string) (*PID, bool) {
 		return nil, false
 	}
 
+	// nil: the node was emptied by a concurrent deleteNode after the lookup
 	cid := cnode.value()
-	if !cid.IsRunning() {
+	if cid == nil || !cid.IsRunning() {
 		return nil, false
 	}
 	return cid, true
